@@ -1,0 +1,7 @@
+//go:build verif
+
+package presence
+
+// VerifQueueCap returns the capacity of the notification queue (one FIFO queue, one sender
+// goroutine); the runtime monitors under /verif use it to build a logical "queue drained" barrier.
+func (s *Service) VerifQueueCap() int { return cap(s.queue) }
